@@ -25,7 +25,7 @@ def _restore():
 atexit.register(_restore)
 for prop in props:
     patches = [] if seeded_only else sorted(glob.glob(f"/verif/mutations/{prop}/*.diff"))
-    for m in sorted(glob.glob("/verif/seeded/*/meta.json")):
+    for m in ([] if "--mutations" in sys.argv else sorted(glob.glob("/verif/seeded/*/meta.json"))):
         try:
             meta = json.load(open(m))
         except Exception:
